@@ -265,10 +265,40 @@ def _d2(chk, fb):
                     conds.append(render(f.nodes[ifn["cond"]]))
             want = "((%s.size() > %s.size()) && !%s)" % (vout[0], vin, rep[0])
             draws = [c for c in f.calls() if c["callee"]["name"] in ("pickOne", "giveIntRandomNumberBetweenZeroAndEntry")]
-            if want in conds and all(cfg.dominates(_cond_head(f, cfg, f.nodes[f.enclosing(t, ("IfStmt",))["cond"]]), cfg.stmt_block(d)) for d in draws for t in thr if f.enclosing(t, ("IfStmt",)) is not None):
+            sub_ = local_inits(f)
+            # the refusal, in whatever arrangement: a throw that is reached exactly under 'no replacement' and 'request longer than source'
+            def refusal(t):
+                fs = set()
+                tb = cfg.stmt_block(t)
+                for a_ in cfg.blocks:
+                    for b_ in cfg.succ[a_]:
+                        if b_ == tb or cfg.dominates(b_, tb):
+                            if not any(o != b_ and (o == tb or e1.path_exists(cfg, o, tb, avoid_blocks={a_})) for o in cfg.succ[a_]):
+                                for tx, tr, nd in e1.edge_facts(cfg, a_, b_):
+                                    fs.add((render(nd, sub_).replace("this.", ""), tr))
+                longer = ("(%s.size() > %s.size())" % (vout[0], vin), True) in fs or ("(%s.size() < %s.size())" % (vin, vout[0]), True) in fs or ("(%s.size() <= %s.size())" % (vout[0], vin), False) in fs
+                norep = (rep[0], False) in fs or ("!%s" % rep[0], True) in fs
+                return longer, norep
+            found = None
+            for t in thr:
+                lg, nr = refusal(t)
+                if lg and nr:
+                    found = t
+            norepl_draws = []      # draws that happen without replacement: the index shuffle, or an explicit pick under !replace
+            shuffles = [c for c in f.calls() if c["callee"]["name"] in ("shuffle", "random_shuffle")]
+            if found is not None:
+                tb = cfg.stmt_block(found)
+                late = [d for d in shuffles if e1.path_exists(cfg, cfg.stmt_block(d), tb)]
+                if late:
+                    chk.refuted("D2", f.key, "overlong-refused", f.loc(found), "the request is refused only after the source has been shuffled / drawn from", witness={"input": "vout longer than vin, replace = false"})
+                else:
+                    chk.proved("D2", f.key, "overlong-refused", f.loc(found), "throws when the request is longer than the source and replacement is off, before any draw")
+            elif want in conds:
                 chk.proved("D2", f.key, "overlong-refused", f.loc(), "throws under %s before any draw" % want)
+            elif not thr:
+                chk.refuted("D2", f.key, "overlong-refused", f.loc(), "sampling without replacement never refuses a request longer than the source: vin[hat[i]] is read out of range", witness={"input": "vout longer than vin, replace = false"})
             else:
-                chk.refuted("D2", f.key, "overlong-refused", f.loc(), "sampling without replacement does not refuse requests longer than the source before drawing (guards found: %s)" % conds)
+                chk.unknown("D2", f.key, "overlong-refused", f.loc(), "refusal not in a recognised form (guards found: %s)" % conds)
     chk.floor("D2", "refusal sites", n, 5)
 
 
